@@ -93,6 +93,39 @@ def rule_lock():
     return not failing, sites, failing
 
 
+def rule_lock_reads():
+    """every READ of self.state in a BackendRegistry method (outside __init__) is lexically inside `with self.use_lock:` - the public methods have ONE path each: take the lock, delegate
+    to the (proved) BackendRegistryState method, publish the new snapshot. A lock-free shortcut reads the state twice (a race with a concurrent __exit__) or answers from a memo before the
+    precedence chain (backend argument > with-block > tensor types) has been consulted."""
+    tree, p = parse("einx/_src/frontend/backend.py")
+    cls = find_class(tree, "BackendRegistry")
+    sites, failing = [], []
+    if cls is None:
+        return False, [], ["einx/_src/frontend/backend.py: class BackendRegistry not found"]
+    par = parents(cls)
+    for fn in cls.body:
+        if not isinstance(fn, ast.FunctionDef) or fn.name == "__init__":
+            continue
+        for n in ast.walk(fn):
+            if isinstance(n, ast.Attribute) and isinstance(n.ctx, ast.Load) and ast.unparse(n) == "self.state":
+                site = f"{rel(p)}:{n.lineno}:BackendRegistry.{fn.name}"
+                sites.append(site)
+                w, locked = n, False
+                while w in par:
+                    w = par[w]
+                    if isinstance(w, ast.With) and any(ast.unparse(i.context_expr) == "self.use_lock" for i in w.items):
+                        locked = True
+                        break
+                if not locked:
+                    failing.append(site + " (self.state is read outside `with self.use_lock`)")
+        body = [st for st in fn.body if not (isinstance(st, ast.Expr) and isinstance(st.value, ast.Constant))]
+        if not (len(body) >= 1 and isinstance(body[0], ast.With) and any(ast.unparse(i.context_expr) == "self.use_lock" for i in body[0].items)):
+            failing.append(f"{rel(p)}:{fn.lineno}:BackendRegistry.{fn.name} does not start with `with self.use_lock:` (a path around the locked delegation)")
+    if not sites:
+        failing.append(f"{rel(p)}: no read of self.state found (contract unbound)")
+    return not failing, sites, failing
+
+
 def rule_snapshot():
     """mutating underscore methods of BackendRegistryState are called only on objects freshly created by BackendRegistryState(self) in the same
     function (published snapshots are never mutated), or on self from within other underscore methods."""
@@ -1105,6 +1138,8 @@ def rule_closure_state():
                     continue
                 v = st.value
                 kind = None
+                if isinstance(v, ast.IfExp):  # `x = arg if arg is not None else {}`: a container either way (the caller's own, or a fresh one) - shared by all calls of the built function
+                    v = v.orelse if isinstance(v.orelse, (ast.Dict, ast.List, ast.Set, ast.Call)) else v.body
                 if isinstance(v, (ast.Dict, ast.List, ast.Set, ast.ListComp, ast.DictComp, ast.SetComp)):
                     kind = "container"
                 elif isinstance(v, ast.Call):
@@ -1133,6 +1168,11 @@ def rule_closure_state():
                     continue
                 params = {a.arg for a in ast.walk(q.args) if isinstance(a, ast.arg)}
                 rebound = {n.id for n in ast.walk(q) if isinstance(n, ast.Name) and isinstance(n.ctx, ast.Store)} - {g for n in ast.walk(q) if isinstance(n, ast.Nonlocal) for g in n.names}
+                # aliases inside the escaping function: `local = captured` makes `local` another name for the shared object
+                alias = {}
+                for n in ast.walk(q):
+                    if isinstance(n, ast.Assign) and len(n.targets) == 1 and isinstance(n.targets[0], ast.Name) and isinstance(n.value, ast.Name) and n.value.id in fresh and n.value.id not in params and n.value.id not in rebound:
+                        alias[n.targets[0].id] = n.value.id
                 for n in ast.walk(q):
                     hit = None
                     if isinstance(n, (ast.Assign, ast.AugAssign, ast.Delete)):
@@ -1140,6 +1180,12 @@ def rule_closure_state():
                         for tt in tg:
                             if isinstance(tt, (ast.Attribute, ast.Subscript)) and root_name(tt) in fresh:
                                 hit = (root_name(tt), "store")
+                            if isinstance(tt, (ast.Attribute, ast.Subscript)) and root_name(tt) in alias:
+                                hit = (alias[root_name(tt)], f"store through the alias `{root_name(tt)}`")
+                            if isinstance(n, ast.AugAssign) and isinstance(tt, ast.Name) and tt.id in alias and fresh[alias[tt.id]][0] == "container":
+                                hit = (alias[tt.id], f"in-place `{tt.id} {type(n.op).__name__}=` through an alias (updates the shared container)")
+                    if isinstance(n, ast.Call) and isinstance(n.func, ast.Attribute) and isinstance(n.func.value, ast.Name) and n.func.value.id in alias and n.func.attr in MUTATORS | {"setdefault", "popitem", "discard", "update"}:
+                        hit = (alias[n.func.value.id], f".{n.func.attr}() through the alias `{n.func.value.id}`")
                     if isinstance(n, ast.Call) and isinstance(n.func, ast.Attribute):
                         r = root_name(n.func.value) if not isinstance(n.func.value, ast.Name) else n.func.value.id
                         if r in fresh and (n.func.attr in MUTATORS | {"setdefault", "popitem", "discard", "reset"} or fresh[r][0].startswith("instance")):
@@ -1148,7 +1194,7 @@ def rule_closure_state():
                         for a in list(n.args) + [k.value for k in n.keywords]:
                             if isinstance(a, ast.Name) and a.id in fresh and fresh[a.id][0].startswith("instance"):
                                 hit = (a.id, "passed on as an argument")
-                    if hit and hit[0] not in params and hit[0] not in rebound:
+                    if hit and hit[0] not in params and (hit[0] not in rebound or "alias" in hit[1]):
                         site = f"{rel(f)}:{n.lineno}:{outer.name}.{q.name}:{hit[0]}:{hit[1]}"
                         sites.append(site)
                         if (rel(f), outer.name, hit[0]) in CLOSURE_STATE_ALLOWED:
